@@ -98,9 +98,12 @@ def _names_via_defs(rd, cfg, tool, at, expr, depth=0, seen=None):
             out.setdefault(x.id, key)
             if depth < 4:
                 for d in defs:
-                    if d.kind == "assign" and d.value is not None and (d.node, x.id) not in seen:
+                    val = d.value
+                    if val is None and d.kind == "assign" and isinstance(getattr(d, "stmt", None), ast.Assign):
+                        val = d.stmt.value  # tuple unpacking: every target is computed from the whole right-hand side
+                    if d.kind == "assign" and val is not None and (d.node, x.id) not in seen:
                         seen.add((d.node, x.id))
-                        for k, v in _names_via_defs(rd, cfg, tool, d.node, d.value, depth + 1, seen).items():
+                        for k, v in _names_via_defs(rd, cfg, tool, d.node, val, depth + 1, seen).items():
                             out.setdefault(k, v)
     return out
 
@@ -185,7 +188,15 @@ def acknowledged_kept(ctx, tool, cfg, info):
         q = prog.qualify(tool.module, c.func, tool) or ""
         if q.startswith("tempfile."):
             d = astq.kw(c, "dir")
-            if d is not None and any(isinstance(x, ast.Attribute) and x.attr == "dir" and astq.is_name(x.value, "options") for x in ast.walk(d)):
+            in_out_dir = d is not None and any(isinstance(x, ast.Attribute) and x.attr == "dir" and astq.is_name(x.value, "options") for x in ast.walk(d))
+            if d is not None and not in_out_dir and not (isinstance(d, ast.Constant)):
+                # the directory computed from other values: follow them back (os.path.split of the final path, a local alias ...)
+                try:
+                    via = _names_via_defs(rd, cfg, tool, containing_node(cfg, tool, c), d)
+                    in_out_dir = "options" in via or any(nm in save_names for nm in via)
+                except Exception:
+                    in_out_dir = False
+            if in_out_dir:
                 ctx.bad(R, tool, c, "%s creates a randomly named file inside the output directory: a hard kill before it is moved into place or removed "
                         "leaves it there for good, so the directory after a resume is not identical to that of an uninterrupted run" % astq.text(c)[:50],
                         "only files named after utterances are created in the output directory")
